@@ -27,3 +27,17 @@ Proof. vm_compute. split; reflexivity. Qed.
 Example spec_position5 : counts "rnbq1k1r/pp1Pbppp/2p5/8/2B5/8/PPP1NnPP/RNBQK2R w KQ - 1 8" [1;2]%nat = [44; 1486]
   /\ legal_consistent false (pos "rnbq1k1r/pp1Pbppp/2p5/8/2B5/8/PPP1NnPP/RNBQK2R w KQ - 1 8") = true.
 Proof. vm_compute. split; reflexivity. Qed.
+
+(* Chess960 (Shredder-FEN rights, castling from arbitrary files): the first entries of the library's own
+   examples/suite960.cpp, whose numbers come from independent engines *)
+Definition pos960 (fen : string) : spos := match of_fen true (s2l fen) with Some s => s | None => mkS [] White None None None None None 0 0 end.
+Definition counts960 (fen : string) (depths : list nat) : list N := map (fun d => spec_perft d (pos960 fen)) depths.
+Example spec_frc_1 : counts960 "bqnb1rkr/pp3ppp/3ppn2/2p5/5P2/P2P4/NPP1P1PP/BQ1BNRKR w HFhf - 2 9" [1;2]%nat = [21; 528]
+  /\ legal_consistent true (pos960 "bqnb1rkr/pp3ppp/3ppn2/2p5/5P2/P2P4/NPP1P1PP/BQ1BNRKR w HFhf - 2 9") = true.
+Proof. vm_compute. split; reflexivity. Qed.
+Example spec_frc_2 : counts960 "b1q1rrkb/pppppppp/3nn3/8/P7/1PPP4/4PPPP/BQNNRKRB w GE - 1 9" [1;2]%nat = [20; 479]
+  /\ legal_consistent true (pos960 "b1q1rrkb/pppppppp/3nn3/8/P7/1PPP4/4PPPP/BQNNRKRB w GE - 1 9") = true.
+Proof. vm_compute. split; reflexivity. Qed.
+Example spec_frc_3 : counts960 "r1bbnk1r/qpp1pppp/p6n/3p4/1P6/5N1P/P1PPPPP1/RQBBK1NR w ha - 0 9" [1;2]%nat = [23; 728]
+  /\ legal_consistent true (pos960 "r1bbnk1r/qpp1pppp/p6n/3p4/1P6/5N1P/P1PPPPP1/RQBBK1NR w ha - 0 9") = true.
+Proof. vm_compute. split; reflexivity. Qed.
